@@ -13,6 +13,7 @@ use vstd::prelude::*;
 use std::fmt::Debug;
 use std::hash::Hash;
 verus! {
+broadcast use {callback_facts::clone_keeps_behaviour, callback_facts::clone_keeps_callable};
 
 // ---- prelude: the three data structures, abstract, with the contracts solve_goal relies on
 #[derive(Clone, Copy)]
@@ -162,6 +163,8 @@ impl<K, V> RecursiveContext<K, V> where K: Hash + Eq + Debug + Clone, V: Debug +
     requires
         // `V::clone` returns an equal value (the derived Clone of the answer type)
         forall|a: V, b: V| call_ensures(V::clone, (&a,), b) ==> a == b,
+        // the caller's callback may be called
+        should_continue.requires(()),
     ensures
         // (E) C11: while the caller's callback says "stop", answers are provisional (`Ambig(Unknown)`, unit V4):  //@ONLY V19
         //     none of them may be made permanent, or later solves on this solver differ from a fresh solver  //@ONLY V19
@@ -187,4 +190,16 @@ impl<K, V> RecursiveContext<K, V> where K: Hash + Eq + Debug + Clone, V: Debug +
 //@END
 
 } // verus!
+pub mod callback_facts {
+use vstd::prelude::*;
+verus! {
+/// ASSUMED: cloning the caller's callback gives a callback that behaves the same (the derived / closure `Clone`)
+pub broadcast axiom fn clone_keeps_behaviour<F: core::ops::Fn() -> bool + Clone>(f: &F, g: F, b: bool)
+    requires #[trigger] call_ensures(F::clone, (f,), g), #[trigger] g.ensures((), b),
+    ensures f.ensures((), b);
+pub broadcast axiom fn clone_keeps_callable<F: core::ops::Fn() -> bool + Clone>(f: &F, g: F)
+    requires #[trigger] call_ensures(F::clone, (f,), g), f.requires(()),
+    ensures g.requires(());
+}
+}
 fn main() {}
